@@ -297,7 +297,9 @@ func c06State(p *core.Prog, r *core.Run, m *echModel, pre string) {
 	hRetry := boolAssume("isRetry", true, func(e *core.Expr) bool { return e.Val == ssa.Value(m.handle.Params[2]) }).asContext()
 	abortUnder(p, r, pre+".M5", "handle:retry-not-decrypted", m.handle, []assumption{hRetry, cmpAssume("inner == nil", "==", isProc0, isConstName("nil"))}, "ech.ErrIllegalParameter", hOK)
 	abortUnder(p, r, pre+".M5", "handle:retry-sni-changed", m.handle, []assumption{hRetry, cmpAssume("c.inner.ServerName != inner.ServerName", "!=",
-		func(e *core.Expr) bool { return e.Op == "field" && e.Obj == m.fCH["ServerName"] && e.Args[0].Op == "field" && e.Args[0].Obj == m.fConn["inner"] },
+		func(e *core.Expr) bool {
+			return e.Op == "field" && e.Obj == m.fCH["ServerName"] && e.Args[0].Op == "field" && e.Args[0].Obj == m.fConn["inner"]
+		},
 		func(e *core.Expr) bool { return e.Op == "field" && e.Obj == m.fCH["ServerName"] && isProc0(e.Args[0]) })}, "ech.ErrIllegalParameter", hOK)
 	abortUnder(p, r, pre+".M5", "handle:retry-alpn-changed", m.handle, []assumption{hRetry, boolAssume("slices.Equal(c.inner.ALPNProtos, inner.ALPNProtos)", false,
 		func(e *core.Expr) bool { return e.Op == "call" && e.Name == "slices.Equal" })}, "ech.ErrIllegalParameter", hOK)
